@@ -15,7 +15,7 @@ def lvl(what):
 
 CHECKS = {
     "C01": ("differential round-trip monitor with three independent decoders",
-            lvl("every one-shot compression (sizes 0..64 exhaustively, all 256 levels, every boundary size, large lazy-parse stress inputs, inputs with planted repeats at the far edge of the 32 KiB window, seeded random sizes) is judged by panic capture, the crate's own decoder, an RFC-1951 reference decoder and system zlib, and levels > 10 must be byte-identical to level 10."),
+            lvl("every one-shot compression (sizes 0..64 exhaustively, all 256 levels, every boundary size, large lazy-parse stress inputs, inputs with planted repeats at the far edge of the 32 KiB window or exactly 64 KiB apart, match-dense level-1 inputs that fill the fast compressor's code buffer, seeded random sizes) is judged by panic capture, the crate's own decoder, an RFC-1951 reference decoder and system zlib, and levels > 10 must be byte-identical to level 10."),
             COMMON_NOTE, "DESIGN.md §3 C01"),
     "C02": ("online call monitor + end-of-history stream oracle over generated call schedules",
             lvl("call histories over all 880 configurations x 3 APIs x 8 general schedule families (1-byte outputs, k-byte outputs, empty chunks, every flush kind, flush while pending...) plus 5 directed families (LZ-buffer fills through tiny outputs, inputs sized on the block thresholds with a flush in the same call, 1-byte trickle past 31 KiB, call boundaries straddling every dictionary wrap) are monitored call by call (bounds, status) and the concatenated output must be exactly one stream that the reference decoder and zlib decode to the input; the verif_probe hook shows how many suspensions had pending output / a saved lazy match."),
